@@ -64,8 +64,9 @@ def rich_state(P, A):
             body.append(T('p', c0))
     body.append(T('p', '(tail)'))
     addressed = B.story(addr_id, slug='ss', timing=None if 0 in untimed else tb('10'), body=body)
+    extra = [B.item(A['e0'], slug='only-here', obj_id=c0)] if 'e0' in A else []
     other = B.story(other_id, slug='so', timing=None if 1 in untimed else tb('20'),
-                    body=[B.item(i, slug='other', obj_id=c0) for i in reversed(ids)] + [T('p', c0)])
+                    body=[B.item(i, slug='other', obj_id=c0) for i in reversed(ids)] + extra + [T('p', c0)])
     order = [addressed, other] if P.get('w', 0) == 0 else [other, addressed]
     root = B.ro_tree(order, lead=3, trail=1)
     root.find('roCreate').insert(3, meta)
@@ -138,6 +139,10 @@ def plan(P, A, ids):
             elif kind == 'dup2':
                 pl.new.append(ids[A['d2']])
                 pl.dups += 1
+            elif kind == 'other':
+                # an item whose ID exists only in the OTHER story: new to the addressed one
+                pl.new.append(A['e0'])
+                pl.eff_new.append(A['e0'])
     return pl
 
 
@@ -379,6 +384,8 @@ def slot_space(op, mode):
         nks = [['fresh'], ['fresh', 'fresh']]
         if level == 'story' and k == 'Insert':
             nks += [['dup'], ['dup', 'fresh'], ['fresh', 'dup'], ['dup', 'dup2'], ['dup', 'fresh', 'dup2']]
+        if level == 'item':
+            nks += [['other'], ['fresh', 'other']]
         if level == 'story' and k == 'Replace' and mode != 'report':
             # a replacement story that carries the ID of another story of the running order
             nks += [['dup'], ['fresh', 'dup'], ['fresh', 'fresh', 'dup']]
@@ -442,6 +449,9 @@ def make_cells(pid, prop, tier, ops=None, N=3, mode=None, thin=None, extra=None,
                                 if kind == 'fresh':
                                     sym.append(('n%d' % j, 'str'))
                                     strs.append('n%d' % j)
+                            if 'other' in nk:
+                                sym.append(('e0', 'str'))
+                                strs.append('e0')
                             if 'dup' in nk:
                                 sym.append(('d', 'int'))
                                 pre.append('0 <= d < %d' % N)
